@@ -10,6 +10,7 @@ Line protocol (C05).  Bytes as lower-case hex (`-` = empty).  State: the DMAP ta
   drain <framer> <hex>    → <msgs> <rest-len> <err|-> <attempts>         framer ∈ mrp companion hap data http
   loop <event|server|pb> <hex>  → <iters> <halted 0|1> <rest-len|->      (rest: event, server)
   pinned <data|event|name> <hex> <fuel>  → running | left               the loops before the repairs
+  control <hex>           → ok <rounds> | err 0                           RAOP ControlClient.datagram_received
   tlv <hex>               → ok <frames> | err:IndexError <frames>
   var <hex>               → ok <value> <rest-len> <iters> | err <iters>
   dmaptable <default> <namehex>=<kind> …  → ok
@@ -88,6 +89,13 @@ def handle (tb : C04.Dmap.Table) (ws : List String) : C04.Dmap.Table × String :
       | "name" => (tb, r ((parseNamePinnedF b fuel 12 [] none).err != some .hang))
       | _ => (tb, "bad-op")
     | _, _ => (tb, "bad-op")
+  | ["control", h] =>
+    match ofHex? h with
+    | some b =>
+      match controlRounds b with
+      | some n => (tb, s!"ok {n}")
+      | none => (tb, "err 0")
+    | none => (tb, "bad-op")
   | ["tlv", h] =>
     match ofHex? h with
     | some b =>
